@@ -57,6 +57,8 @@ pub struct Feat {
     pub neg: bool,
     /// `list[param]`: a parameter in index position
     pub param_index: bool,
+    /// a named output used as a value inside redeemers and datums (its position among the outputs)
+    pub output_positions: bool,
 }
 
 impl Feat {
@@ -101,6 +103,7 @@ impl Feat {
             max_cases: 5,
             neg: true,
             param_index: false,
+            output_positions: false,
         }
     }
 }
@@ -1781,6 +1784,61 @@ impl<'t, 'c> Gen<'t, 'c> {
         self.cur.order = blocks;
 
         let tx = std::mem::take(&mut self.cur);
+        // a named output used as a value: one integer literal inside a redeemer or a datum becomes the name of an
+        // output (only when no output is optional - an output that may be left out makes "position" ambiguous)
+        let mut tx = tx;
+        if self.feat.output_positions && !tx.outputs.iter().any(|o| o.optional) && self.t.chance(1, 4) {
+            let named: Vec<usize> = (0..tx.outputs.len()).filter(|i| tx.outputs[*i].name.is_some()).collect();
+            if !named.is_empty() {
+                let k = named[self.t.pick(named.len())];
+                let mut slots: Vec<&mut GExpr> = vec![];
+                for i in tx.inputs.iter_mut() {
+                    if let Some(r) = i.redeemer.as_mut() {
+                        slots.push(r);
+                    }
+                }
+                for m in tx.mints.iter_mut().chain(tx.burns.iter_mut()) {
+                    if let Some(r) = m.redeemer.as_mut() {
+                        slots.push(r);
+                    }
+                }
+                for d in tx.cardano.iter_mut() {
+                    if let GDirective::Withdrawal { redeemer: Some(r), .. } = d {
+                        slots.push(r);
+                    }
+                }
+                for o in tx.outputs.iter_mut() {
+                    if let Some(d) = o.datum.as_mut() {
+                        slots.push(d);
+                    }
+                }
+                // only whole redeemers / datums and fields of (nested) records: the first item of a list literal
+                // types the list, an index must be a literal, arithmetic wants typed operands
+                fn spots(e: &mut GExpr, out: &mut Vec<*mut GExpr>) {
+                    match e {
+                        GExpr::Int(_) => out.push(e as *mut GExpr),
+                        GExpr::Record { fields, .. } => {
+                            for (_, v) in fields.iter_mut() {
+                                spots(v, out);
+                            }
+                        }
+                        _ => {}
+                    }
+                }
+                let mut cands: Vec<*mut GExpr> = vec![];
+                for s in slots.iter_mut() {
+                    spots(s, &mut cands);
+                }
+                if !cands.is_empty() {
+                    let pick = cands[self.t.pick(cands.len())];
+                    // the pointers come from `tx`, which is owned here and not touched in between
+                    unsafe {
+                        *pick = GExpr::OutputPos(k);
+                    }
+                    self.mark("output_named_as_a_value");
+                }
+            }
+        }
         (tx, self.arg_vals.clone(), utxos, collateral)
     }
 
